@@ -23,6 +23,8 @@ def run(ctx, model_ok, deep=False):
         ("alg-matrix", None, S.falsify_accept,
          "cell = configured alg(16) x key(absent | kty x JWK alg attribute) x route(setkey, callback-selected, callback-overrides); "
          "per cell 23 header-alg variants x 3-5 signature classes; distinct = distinct (implementation answer, cell meta)", True),
+        ("builder-routes", S.builder_routes_suite, S.falsify_builder_routes,
+         "builder side of the admission table: key via setkey / callback / both (same item, another item carrying its own alg), explicit alg none/equal/different, alg attribute present/absent, private/public", False),
         ("long-inputs", S.long_inputs_suite, S.falsify_long_inputs,
          "alg header names of 1-20, 180-300, 400, 511-513, 767/768, 1000-1025, 4096, 20000 characters (bare and appended to none/HS256/RS256) on an unkeyed and a keyed checker; JWKs whose kty/crv/kid/alg member has those lengths; contract flag <=> rc, flag => message on every answer", False),
     ])
